@@ -7,7 +7,7 @@ from __future__ import annotations
 
 from .common import cps, uncps, rec
 
-SYMS = ["a", "b", "/", "_", "#", "G", "1", ":", "é", "́", "\U0001d518", " "]
+SYMS = ["a", "b", "/", "_", "#", "G", "1", ":", "é", "́", "\U0001d518", " ", "\n"]
 DELIMS = [":", ":", ":", ":", "/", "::", "_", "|", "-:"]
 REAL_URIS = ["http://purl.obolibrary.org/obo/", "http://purl.obolibrary.org/obo/GO_",
              "http://purl.obolibrary.org/obo/CHEBI_", "https://identifiers.org/", "https://identifiers.org/GO:",
@@ -252,6 +252,21 @@ def build_steps(rng, recs, delim, queries, slot=0, p_incremental=0.35):
     from .common import q as _q
     header = [_q(slot, "records"), _q(slot, "delimiter")]
     d = [ord(ch) for ch in delim]
+    # a few questions are asked with instances of a str subclass (as curies.Prefix is one): same characters, same answer
+    queries = [dict(st, cls="sub") if st.get("op") == "q" and st.get("a") and rng.random() < 0.04 else st for st in queries]
+    if recs and rng.random() < 0.12:
+        # the application deep-copies or pickles its converter (multiprocessing, caching) and works with the copy
+        header = [{"op": "clone", "dst": slot, "src": slot, "how": rng.choice(["deepcopy", "pickle"])}] + header
+    sfx = "+copied" if header[0].get("op") == "clone" else ""
+    decoy = []
+    if len(recs) >= 2 and rng.random() < 0.12:
+        # another converter lives in the same process, with the same strings meaning something else (the prefixes
+        # rotated over the records), and is asked the same questions first: answers must come from the converter
+        # asked, not from anything keyed by the strings alone
+        rot = [dict(r, p=recs[(i + 1) % len(recs)]["p"], ps=recs[(i + 1) % len(recs)]["ps"]) for i, r in enumerate(recs)]
+        decoy = [{"op": "init", "dst": slot + 70, "records": rot, "delim": d}] + \
+                [dict(st, c=slot + 70) for st in queries if st.get("op") == "q"]
+        sfx += "+decoy"
     # a rejected call in the history: a new record whose *later* names clash with an existing record (no merge).
     # It raises ValueError and must leave no trace: the new names stay unknown to every query.
     if recs and rng.random() < 0.3:
@@ -278,9 +293,23 @@ def build_steps(rng, recs, delim, queries, slot=0, p_incremental=0.35):
                     {"op": "add_prefix", "c": slot + 50, "p": cps("twinp"), "u": cps("http://twin.example/"), "ps": [], "us": []}]
             extra = [_q(slot, "standardize_prefix", "twinp"), _q(slot, "expand_pair", "twinp", "1"),
                      _q(slot, "standardize_uri", "http://twin.example/1")]
-            return twin + header + list(queries) + extra, "init+twin-from-same-list"
-        return [{"op": "init", "dst": slot, "records": recs, "delim": d,
-                 "container": rng.choice(["list", "list", "tuple", "iter", "generator", "dict_values"])}] + header + queries, "init"
+            return decoy + twin + header + list(queries) + extra, "init+twin-from-same-list" + sfx
+        simple = all(not r["ps"] and not r["us"] and r.get("pat") is None for r in recs) and len({tuple(r["p"]) for r in recs}) == len(recs)
+        nopat = bool(recs) and all(r.get("pat") is None for r in recs) and len({tuple(r["p"]) for r in recs}) == len(recs)
+        if simple and recs and rng.random() < 0.4:
+            # the same content arriving through the plain-prefix-map loader
+            cons = [{"op": "load_pm", "dst": slot, "data": [[r["p"], r["u"]] for r in recs], "delim": d}]
+        elif nopat and rng.random() < 0.25:
+            # ... or through the loader followed by merges that bring the synonyms (a prefix map curated in place)
+            cons = [{"op": "load_pm", "dst": slot, "data": [[r["p"], r["u"]] for r in recs], "delim": d}]
+            cons += [{"op": "add_prefix", "c": slot, "p": r["p"], "u": r["u"], "ps": r["ps"], "us": r["us"], "merge": True}
+                     for r in recs if r["ps"] or r["us"]]
+            sfx += "+loaded-then-merged"
+        else:
+            cons = [{"op": "init", "dst": slot, "records": recs, "delim": d,
+                     "container": rng.choice(["list", "list", "tuple", "iter", "generator", "dict_values"])}]
+        by, byq, bytag = bystander(rng, recs, delim, cons, slot)
+        return decoy + by + header + list(queries) + byq, "init" + sfx + bytag
     thinned, later = split_history(rng, recs)
     rest = [r for kind, r in later if kind == "add"]
     first = thinned
@@ -296,7 +325,74 @@ def build_steps(rng, recs, delim, queries, slot=0, p_incremental=0.35):
             steps.append({"op": "add_record", "c": slot, "record": r, "merge": merge})
         if rng.random() < 0.3 and queries:
             steps.append(dict(rng.choice(queries)))
-    return steps + header + queries, ("incremental+merge" if len(later) > len(rest) else "incremental")
+    by, byq, bytag = bystander(rng, recs, delim, steps, slot)
+    return decoy + by + header + list(queries) + byq, ("incremental+merge" if len(later) > len(rest) else "incremental") + sfx + bytag
+
+
+def bystander(rng, recs, delim, cons, slot, p=0.22):
+    """`cons` builds converter `slot`.  With probability `p` a second converter M related to it lives in the same
+    process and is curated, while `slot` -- the bystander -- is the one that gets asked:
+
+      child       M = derive(slot)                         parent      slot = derive(B),  M = B
+      sibling     slot = derive(B), M = derive(B)          grandchild  slot = derive(B),  M = derive(slot)
+      twin        M is built by exactly the calls that built slot
+
+    derive = chain([x]) / x.get_subconverter(all prefixes) / copy.deepcopy(x) / pickle round trip.  M then acquires a
+    synonym and a URI prefix by merge into one of its records, and a new record; in half of the cases the bystander
+    merges a synonym of its own into the *same* record (which re-indexes that record).  Whatever M learnt must stay
+    unknown to the bystander: records, lookup tables, tries and caches are per converter.  Returns (steps that replace
+    `cons`, queries to append, tag)."""
+    from .common import q as _q
+    if not recs or rng.random() >= p:
+        return cons, [], ""
+    B, M = slot + 80, slot + 81
+    canon = [r["p"] for r in recs]
+
+    def derive(dst, src):
+        # (chain and get_subconverter build their result with the default delimiter ':': they are used only when the
+        #  converter has that delimiter, so that the converter asked stays inside the properties' quantifiers)
+        k = rng.choice(["chain", "sub", "deepcopy", "pickle"] if delim == ":" else ["deepcopy", "pickle"])
+        if k == "chain":
+            return {"op": "chain", "dst": dst, "srcs": [src]}
+        if k == "sub":
+            return {"op": "sub", "dst": dst, "src": src, "prefixes": canon}
+        return {"op": "clone", "dst": dst, "src": src, "how": k}
+
+    def retarget(steps, to):
+        out = []
+        for st in steps:
+            st = dict(st)
+            for f in ("dst", "c"):
+                if st.get(f) == slot:
+                    st[f] = to
+            out.append(st)
+        return out
+
+    kind = rng.choice(["child", "parent", "sibling", "grandchild", "twin"])
+    if kind == "child":
+        steps, m = cons + [derive(M, slot)], M
+    elif kind == "parent":
+        steps, m = retarget(cons, B) + [derive(slot, B)], B
+    elif kind == "sibling":
+        steps, m = retarget(cons, B) + [derive(slot, B), derive(M, B)], M
+    elif kind == "grandchild":
+        steps, m = retarget(cons, B) + [derive(slot, B), derive(M, slot)], M
+    else:
+        steps, m = cons + [st for st in retarget(cons, M) if st["op"] != "q"], M
+    t = rng.choice(recs)
+    u1, u2, u3 = "http://bystander.example/u/", "http://bystander.example/u2/", "http://bystander.example/new/"
+    steps = steps + [
+        {"op": "add_prefix", "c": m, "p": t["p"], "u": cps(u1), "ps": [cps("bysyn")], "us": [cps(u2)], "merge": True},
+        {"op": "add_prefix", "c": m, "p": cps("byp"), "u": cps(u3), "ps": [cps("bypsyn")], "us": []}]
+    if rng.random() < 0.5:
+        steps.append({"op": "add_prefix", "c": slot, "p": t["p"], "u": t["u"], "ps": [cps("ownsyn")], "us": [], "merge": True})
+    qs = [_q(slot, "standardize_prefix", "bysyn"), _q(slot, "expand_pair", "bysyn", "1"), _q(slot, "expand", "bysyn" + delim + "1"),
+          _q(slot, "expand_pair_all", uncps(t["p"]), "1"), _q(slot, "compress", u1 + "1"), _q(slot, "standardize_uri", u2 + "1"),
+          _q(slot, "parse_uri", u3 + "1"), _q(slot, "is_uri", u1 + "1"), _q(slot, "expand_pair", "byp", "1"),
+          _q(slot, "is_curie", "byp" + delim + "1"), _q(slot, "standardize_curie", "bypsyn" + delim + "1"),
+          _q(slot, "compress_or_standardize", u1 + "1"), _q(slot, "expand_or_standardize", "bysyn" + delim + "1"),
+          _q(slot, "get_prefixes", s=True), _q(slot, "get_uri_prefixes", s=True)]
+    return steps, qs, "+bystander:" + kind
 
 
 def observe_steps(slot, probes_p=(), probes_u=()):
